@@ -199,6 +199,17 @@ PROPS["C18"] = {
     "assumptions": ["strsim::damerau_levenshtein is compared with an independent implementation on the enumerated domain only"],
 }
 
+PROPS["C16"] = {
+    "title": "The derive rejects what it cannot honour instead of ignoring it", "level": "other",
+    "technique": "Verus on the extracted attribute merge / validate functions of derive/src/attribute_parser.rs (representation invariant 'attribute present <=> span recorded'; Err <=> duplicate or conflict) + bounded compile run of poisoned derive inputs through the real proc-macro",
+    "design_ref": "DESIGN.md §4 C16",
+    "units": [{"kind": "verus", "unit": "attrs"}, {"kind": "ui", "group": "derive-rejects"}],
+    "text": "Deductive part (Verus, all inputs): FieldAttributesInfo::merge, ContainerAttributesInfo::merge, VariantAttributesInfo::merge return Err exactly when a single-valued attribute is present on both sides or from/try_from conflict, and preserve the invariant that the span used for duplicate detection is recorded exactly when the attribute is present; validate_container_attributes returns Err exactly for try_from with rename_all / tag / deny_unknown_fields and for tag on a struct. Bounded part: 41 hand-written derive inputs (5 valid controls, 36 poisoned with one rejection cause each: unsupported shapes, unknown attributes, invalid rename_all, malformed syntax, duplicates within one attribute and across several at container / variant / field level, from + try_from, tag on struct, try_from conflicts) are compiled with the real proc-macro; each poisoned input must be rejected by a derive diagnostic in its own line range, never a panic, never silently accepted.",
+    "level_note": "The token-level parsing (syn) and the shape checks are not within reach of either verifier: that part is a bounded compile run over a sampled grammar, labelled as such. syn / proc_macro2 types are opaque stand-ins in the Verus unit.",
+    "explanation": "Partial deductive proof (merge / validate logic) + bounded compile-fail run; the 'every derive input' quantifier is sampled.",
+    "assumptions": ["syn::Error construction does not panic; Vec::extend is total (external_body stand-ins)"],
+}
+
 NOT_APPLICABLE = {
     "C20": "HTTP extractors are three-line async compositions of actix-web/axum extractors with deserr::deserialize; neither installed verifier can run or specify the frameworks (futures, pinning, runtime), so every obligation would be an assumed contract on actix/axum with nothing left to prove; the features are off by default and not compiled in the baseline.",
 }
